@@ -85,9 +85,9 @@ func SelfTest(seed uint64, nSpecs int) int {
 			tape, _ := json.Marshal(st.Tape)
 			sites, _ := json.Marshal(st.MapSitesSeen)
 			fsites, _ := json.Marshal(st.FaultSites)
-			fmt.Fprintf(&sb, "unit %d exit=%d done=%v steps=%d decisions=%d trace=%s sig=%s ycalls=%d mapcalls=%d perm=%d ties=%d live=%d\n tape=%s\n sites=%s\n faultsites=%s fired=%v\n crash=%q deadlock=%q hang=%q\n",
+			fmt.Fprintf(&sb, "unit %d exit=%d done=%v steps=%d decisions=%d trace=%s sig=%s ycalls=%d mapcalls=%d perm=%d ties=%d live=%d\n tape=%s\n sites=%s\n faultsites=%s fired=%v\n crash=%q deadlock=%q hang=%q races=%v\n",
 				i, c.Exit, c.Done, st.Steps, st.Decisions, st.TraceHash, st.ConflictSig, st.YCalls, st.MapCalls, st.MapPermuted, st.MapTies, st.LiveAtEnd,
-				tape, sites, fsites, strings.ReplaceAll(fmt.Sprint(st.FaultsFired), ud, "<RUN>"), st.Crash, st.Deadlock, st.Hang)
+				tape, sites, fsites, strings.ReplaceAll(fmt.Sprint(st.FaultsFired), ud, "<RUN>"), st.Crash, st.Deadlock, st.Hang, st.Races)
 			fmt.Fprintf(&sb, " stderr=%q\n stdout=%q\n", Normalise(c.Stderr, ud), Normalise(c.Stdout, ud))
 			for _, f := range c.Files {
 				if strings.HasSuffix(f.Name, ".o") {
